@@ -19,84 +19,98 @@ def run(ctx):
     ccon = f"{cm.module.relpath}::{cm.qual}"
 
     r1 = ctx.rule("R1", "each target is cancelled inside its own try whose handlers absorb every backend failure; only 'unsupported' aborts", min_instances=3)
-    loop = None
-    for n in walk_no_nested(cm.node):
-        if isinstance(n, ast.For) and dotted(n.iter) == cm.positional_params()[1]:
-            loop = n
-    call = None
-    for c in _calls(cm.node):
-        if isinstance(c.func, ast.Attribute) and c.func.attr == "cancel" and dotted(c.func.value) == cm.positional_params()[0]:
-            call = c
-    if loop is None or call is None:
-        r1.violation(ccon, "loop over the selected targets calling backend.cancel(target) not found", cm.where)
-    else:
-        r1.check(dotted(call.args[0]) == dotted(loop.target) if call.args else False, ccon + "::argument", "backend.cancel(<loop target>)",
-                 "backend.cancel is not called with the target of the current iteration", loc(call, cm.module))
-        tries = [a for a in ancestors(call) if isinstance(a, ast.Try)]
-        inside = [t for t in tries if any(t in list(ast.walk(s)) for s in loop.body)]
-        if not inside:
-            r1.violation(ccon + "::try-in-loop", "backend.cancel(target) is not protected by a try inside the loop: the first target that cannot be cancelled "
-                         "(never submitted, already finished, scheduler error) aborts the cancellation of all remaining targets", loc(call, cm.module))
+    from .evalhelpers import cancel_command_witness
+    _wit = {}
+
+    def witness():
+        if 'v' not in _wit:
+            _wit['v'] = cancel_command_witness(ctx)
+        return _wit['v']
+
+    def structural_r1(_ctx, rr):
+        loop = None
+        for n in walk_no_nested(cm.node):
+            if isinstance(n, ast.For) and dotted(n.iter) == cm.positional_params()[1]:
+                loop = n
+        call = None
+        for c in _calls(cm.node):
+            if isinstance(c.func, ast.Attribute) and c.func.attr == "cancel" and dotted(c.func.value) == cm.positional_params()[0]:
+                call = c
+        if loop is None or call is None:
+            rr.violation(ccon, "loop over the selected targets calling backend.cancel(target) not found", cm.where)
         else:
-            t = inside[0]
-            # what can backend.cancel raise: BackendError from call(), TargetError from an untracked target
-            must_absorb = [f"{EXC}.BackendError", f"{EXC}.TargetError"]
-            for exc in must_absorb:
-                handler = None
-                for hd in t.handlers:
-                    names = []
-                    tp = hd.type
-                    for e in (tp.elts if isinstance(tp, ast.Tuple) else [tp] if tp is not None else [None]):
-                        names.append(None if e is None else idx.canon(e, cm.module))
-                    if any(nm is None or h.is_sub(exc, nm) for nm in names):
-                        handler = hd
-                        break
-                short = exc.rsplit(".", 1)[1]
-                if handler is None:
-                    r1.violation(ccon + f"::absorbs-{short}", f"a {short} raised while cancelling one target (e.g. scancel/qdel/bkill failing) is not caught inside the loop: "
-                                 "it ends the command and the remaining targets are never cancelled", loc(t, cm.module))
-                else:
-                    leaves = [n for s in handler.body for n in ast.walk(s) if isinstance(n, (ast.Raise, ast.Break, ast.Return))]
-                    r1.check(not leaves, ccon + f"::absorbs-{short}", f"{short} is reported and the loop continues",
-                             f"the handler for {short} leaves the loop ({type(leaves[0]).__name__ if leaves else ''}): remaining targets are not cancelled",
-                             loc(handler, cm.module))
-            # UnsupportedOperationError handler (if any) comes before the general one and aborts
-            uo = [hd for hd in t.handlers if hd.type is not None and (idx.canon(hd.type, cm.module) or "").endswith("UnsupportedOperationError")]
-            if uo:
-                first_general = min((i for i, hd in enumerate(t.handlers) if hd.type is None or any(
-                    (idx.canon(e, cm.module) or "").endswith(("BackendError", "GWFError", "Exception")) for e in (hd.type.elts if isinstance(hd.type, ast.Tuple) else [hd.type]))),
-                    default=len(t.handlers))
-                r1.check(t.handlers.index(uo[0]) < first_general, ccon + "::unsupported-first", "'unsupported' is tested before the general handler", 
-                         "the UnsupportedOperationError handler is shadowed by an earlier, more general handler", loc(uo[0], cm.module))
+            rr.check(dotted(call.args[0]) == dotted(loop.target) if call.args else False, ccon + "::argument", "backend.cancel(<loop target>)",
+                     "backend.cancel is not called with the target of the current iteration", loc(call, cm.module))
+            tries = [a for a in ancestors(call) if isinstance(a, ast.Try)]
+            inside = [t for t in tries if any(t in list(ast.walk(s)) for s in loop.body)]
+            if not inside:
+                rr.violation(ccon + "::try-in-loop", "backend.cancel(target) is not protected by a try inside the loop: the first target that cannot be cancelled "
+                             "(never submitted, already finished, scheduler error) aborts the cancellation of all remaining targets", loc(call, cm.module))
+            else:
+                t = inside[0]
+                # what can backend.cancel raise: BackendError from call(), TargetError from an untracked target
+                must_absorb = [f"{EXC}.BackendError", f"{EXC}.TargetError"]
+                for exc in must_absorb:
+                    handler = None
+                    for hd in t.handlers:
+                        names = []
+                        tp = hd.type
+                        for e in (tp.elts if isinstance(tp, ast.Tuple) else [tp] if tp is not None else [None]):
+                            names.append(None if e is None else idx.canon(e, cm.module))
+                        if any(nm is None or h.is_sub(exc, nm) for nm in names):
+                            handler = hd
+                            break
+                    short = exc.rsplit(".", 1)[1]
+                    if handler is None:
+                        rr.violation(ccon + f"::absorbs-{short}", f"a {short} raised while cancelling one target (e.g. scancel/qdel/bkill failing) is not caught inside the loop: "
+                                     "it ends the command and the remaining targets are never cancelled", loc(t, cm.module))
+                    else:
+                        leaves = [n for s in handler.body for n in ast.walk(s) if isinstance(n, (ast.Raise, ast.Break, ast.Return))]
+                        rr.check(not leaves, ccon + f"::absorbs-{short}", f"{short} is reported and the loop continues",
+                                 f"the handler for {short} leaves the loop ({type(leaves[0]).__name__ if leaves else ''}): remaining targets are not cancelled",
+                                 loc(handler, cm.module))
+                # UnsupportedOperationError handler (if any) comes before the general one and aborts
+                uo = [hd for hd in t.handlers if hd.type is not None and (idx.canon(hd.type, cm.module) or "").endswith("UnsupportedOperationError")]
+                if uo:
+                    first_general = min((i for i, hd in enumerate(t.handlers) if hd.type is None or any(
+                        (idx.canon(e, cm.module) or "").endswith(("BackendError", "GWFError", "Exception")) for e in (hd.type.elts if isinstance(hd.type, ast.Tuple) else [hd.type]))),
+                        default=len(t.handlers))
+                    rr.check(t.handlers.index(uo[0]) < first_general, ccon + "::unsupported-first", "'unsupported' is tested before the general handler", 
+                             "the UnsupportedOperationError handler is shadowed by an earlier, more general handler", loc(uo[0], cm.module))
+
+    ctx.structural_or_witness(r1, structural_r1, witness, ccon, both=True)
 
     r2 = ctx.rule("R2", "exactly the selected targets: patterns via filter_names, else all; cancel uses the job id tracked under the target's own name", min_instances=5)
     cc = idx.func("gwf.plugins.cancel:cancel")
     con = f"{cc.module.relpath}::{cc.qual}"
-    sel = None
-    for n in walk_no_nested(cc.node):
-        if isinstance(n, ast.If) and dotted(n.test) == "targets":
-            then = [ast.unparse(s.value) for s in n.body if isinstance(s, ast.Assign) and dotted(s.targets[0]) == "targets"]
-            els = [ast.unparse(s.value) for s in n.orelse if isinstance(s, ast.Assign) and dotted(s.targets[0]) == "targets"]
-            sel = (then, els)
-    r2.check(sel is not None and sel[0] == ["filter_names(graph, targets)"] and sel[1] in (["list(graph)"], ["list(graph.targets.values())"], ["graph.targets.values()"]),
-             con + "::selection", "targets = filter_names(graph, targets) if given else all targets",
-             f"the selection is {sel}: it must be the targets matching the patterns, or all targets when none are named", cc.where)
-    passed = any(isinstance(c.func, ast.Name) and c.func.id == "cancel_many" and len(c.args) == 2 and dotted(c.args[1]) == "targets" for c in _calls(cc.node))
-    r2.check(passed, con + "::pass", "cancel_many(backend, targets) receives the selection", "cancel_many does not receive the selected targets", cc.where)
-    # prompt
-    pr_ok = False
-    for n in walk_no_nested(cc.node):
-        if isinstance(n, ast.If):
-            t = ast.unparse(n.test)
-            if t in ("not force and (not targets)", "not targets and (not force)", "not force and not targets", "not targets and not force", "not (force or targets)", "not (targets or force)"):
-                for c in _calls(n):
-                    if idx.canon(c.func, cc.module) == "click.confirm" and any(k.arg == "abort" and isinstance(k.value, ast.Constant) and k.value.value is True for k in c.keywords):
-                        # before backend creation
-                        first_backend = min((x.lineno for x in ast.walk(cc.node) if isinstance(x, ast.Call) and isinstance(x.func, (ast.Name, ast.Attribute))
-                                             and (idx.canon(x.func, cc.module) or "").endswith("create_backend")), default=10**9)
-                        pr_ok = n.lineno < first_backend
-    r2.check(pr_ok, con + "::prompt", "cancelling everything asks for confirmation (abort on decline) before the backend is touched",
-             "`gwf cancel` without targets and without --force does not ask for confirmation (aborting on decline) before cancelling", cc.where)
+    def structural_r2(_ctx, rr):
+        sel = None
+        for n in walk_no_nested(cc.node):
+            if isinstance(n, ast.If) and dotted(n.test) == "targets":
+                then = [ast.unparse(s.value) for s in n.body if isinstance(s, ast.Assign) and dotted(s.targets[0]) == "targets"]
+                els = [ast.unparse(s.value) for s in n.orelse if isinstance(s, ast.Assign) and dotted(s.targets[0]) == "targets"]
+                sel = (then, els)
+        rr.check(sel is not None and sel[0] == ["filter_names(graph, targets)"] and sel[1] in (["list(graph)"], ["list(graph.targets.values())"], ["graph.targets.values()"]),
+                 con + "::selection", "targets = filter_names(graph, targets) if given else all targets",
+                 f"the selection is {sel}: it must be the targets matching the patterns, or all targets when none are named", cc.where)
+        passed = any(isinstance(c.func, ast.Name) and c.func.id == "cancel_many" and len(c.args) == 2 and dotted(c.args[1]) == "targets" for c in _calls(cc.node))
+        rr.check(passed, con + "::pass", "cancel_many(backend, targets) receives the selection", "cancel_many does not receive the selected targets", cc.where)
+        # prompt
+        pr_ok = False
+        for n in walk_no_nested(cc.node):
+            if isinstance(n, ast.If):
+                t = ast.unparse(n.test)
+                if t in ("not force and (not targets)", "not targets and (not force)", "not force and not targets", "not targets and not force", "not (force or targets)", "not (targets or force)"):
+                    for c in _calls(n):
+                        if idx.canon(c.func, cc.module) == "click.confirm" and any(k.arg == "abort" and isinstance(k.value, ast.Constant) and k.value.value is True for k in c.keywords):
+                            # before backend creation
+                            first_backend = min((x.lineno for x in ast.walk(cc.node) if isinstance(x, ast.Call) and isinstance(x.func, (ast.Name, ast.Attribute))
+                                                 and (idx.canon(x.func, cc.module) or "").endswith("create_backend")), default=10**9)
+                            pr_ok = n.lineno < first_backend
+        rr.check(pr_ok, con + "::prompt", "cancelling everything asks for confirmation (abort on decline) before the backend is touched",
+                 "`gwf cancel` without targets and without --force does not ask for confirmation (aborting on decline) before cancelling", cc.where)
+
+    ctx.structural_or_witness(r2, structural_r2, witness, con, both=True)
     from .evalhelpers import eval_cancel
     from ..symeval import tok
     res, tb_cancel = eval_cancel(ctx)
@@ -119,7 +133,12 @@ def run(ctx):
     ok = any(isinstance(c.func, ast.Attribute) and c.func.attr == "cancel" and c.args and dotted(c.args[0]) == lo.positional_params()[1] for c in _calls(lo.node))
     r2.check(ok, f"{lo.module.relpath}::{lo.qual}", "client.cancel(job_id)", "LocalOps.cancel_job does not forward the job id to the pool", lo.where)
     cl = idx.func("gwf.backends.local:Client.cancel")
-    ok = any(isinstance(c.func, ast.Attribute) and c.func.attr == "send" and c.args and isinstance(c.args[0], ast.Constant) and c.args[0].value == "cancel_task"
+    def _const(e):
+        try:
+            return ctx.ev.eval(e, cl.module)
+        except Exception:
+            return None
+    ok = any(isinstance(c.func, ast.Attribute) and c.func.attr == "send" and c.args and _const(c.args[0]) == "cancel_task"
              and any(k.arg == "tid" and dotted(k.value) == cl.positional_params()[1] for k in c.keywords) for c in _calls(cl.node))
     r2.check(ok, f"{cl.module.relpath}::{cl.qual}", "send('cancel_task', tid=job_id)", "Client.cancel does not send cancel_task with the job id", cl.where)
 
